@@ -103,10 +103,15 @@ ObsStep(e) ==
   /\ oLastW' = CASE e.op = "poll" -> [oLastW EXCEPT ![e.f] = e.w]
                  [] e.op = "drop" -> [oLastW EXCEPT ![e.f] = "-"]
                  [] OTHER -> oLastW
-  /\ oWoken' = CASE e.op \in {"poll", "drop"} -> [oWoken EXCEPT ![e.f] = FALSE]
-                 [] e.op = "wake" ->
-                      [oWoken EXCEPT ![e.w[1]] = @ \/ (oA[e.w[1]] = "pending" /\ oLastW[e.w[1]] = e.w[2])]
-                 [] OTHER -> oWoken
+  \* a wake-up is delivered by a `wake` event (after the lock was released) or inside the critical
+  \* section of the call itself (`wakes`; an implementation may choose either)
+  /\ oWoken' = LET W0 == IF e.op \in {"poll", "drop"} THEN [oWoken EXCEPT ![e.f] = FALSE] ELSE oWoken
+                   LW == CASE e.op = "poll" -> [oLastW EXCEPT ![e.f] = e.w]
+                           [] e.op = "drop" -> [oLastW EXCEPT ![e.f] = "-"]
+                           [] OTHER -> oLastW
+                   ws == IF e.op = "wake" THEN <<e.w>> ELSE IF "wakes" \in DOMAIN e THEN e.wakes ELSE <<>>
+               IN [f \in Slots |-> W0[f] \/ (A[f] = "pending" /\
+                      \E i \in 1..Len(ws) : ws[i][1] = f /\ ws[i][2] = LW[f])]
   /\ oInfl' = IF e.op = "wake" THEN BagDel(oInfl, e.w) ELSE BagAdd(oInfl, Taken(e))
   /\ bad' = StepBad(e, A, G, oOrd)
 
